@@ -102,7 +102,8 @@ Imsaak2A == /\ stage = "imsaak2"
                THEN panic' = TRUE /\ stage' = "panic" /\ UNCHANGED res
                ELSE /\ UNCHANGED panic /\ stage' = "done"
                     /\ res' = [res EXCEPT ![Imsaak] =
-                                  ToTime(ImsaakP2(P), Fajr, Hours(ImsaakP2(P), env)[Fajr])]
+                                  LET t == ToTime(ImsaakP2(P), Fajr, Hours(ImsaakP2(P), env)[Fajr]) IN
+                                  IF t.ok /\ ~LegacyImsaakFlag THEN [t EXCEPT !.x = TRUE] ELSE t]
             /\ UNCHANGED <<P, env, h>>
 
 Next == GetHoursA \/ PolicyA \/ IntervalA \/ TimesA \/ Imsaak1A \/ Imsaak2A
@@ -145,7 +146,7 @@ IdentityWhenAllValid ==
 \* C08 (c): a time not flagged extreme equals the conventional time (half-of-night exempt)
 UnflaggedIsConventional ==
     (Done /\ P.pol \notin {HalfAlways, HalfInvalid} /\ QuantifiedC08) =>
-        \A p \in P6 : (res[p].ok /\ ~res[p].x) => Same(res[p], ResNone[p])
+        \A p \in P7 : (res[p].ok /\ ~res[p].x) => Same(res[p], ResNone[p])
 
 \* C10: an interval-defined Fajr / Isha keeps that definition under every policy that does not consume the intervals
 IntervalKept ==
